@@ -149,7 +149,43 @@ func concKinds() []concKind {
 					panic(err)
 				}
 				srv := oprf.NewVerifiableServer(su, sk)
+				// one client object (suite + server key) shared by all goroutines, used through the value
+				// and through copies of it
+				shared := oprf.NewVerifiableClient(su, pk0)
+				plain := oprf.NewClient(su)
+				psrv := oprf.NewServer(su, sk)
 				return []func() string{
+					func() string {
+						cl := shared // a copy of the shared client value
+						fin, req, err := cl.Blind([][]byte{input, input[:7]})
+						if err != nil {
+							return "blind-error"
+						}
+						ev, err := srv.Evaluate(req)
+						if err != nil {
+							return "evaluate-error:" + err.Error()
+						}
+						out, err := shared.Finalize(fin, ev)
+						if err != nil {
+							return "finalize-error:" + err.Error()
+						}
+						return fmt.Sprintf("shared-out=%x/%x", out[0], out[1])
+					},
+					func() string {
+						fin, req, err := plain.Blind([][]byte{input})
+						if err != nil {
+							return "blind-error"
+						}
+						ev, err := psrv.Evaluate(req)
+						if err != nil {
+							return "evaluate-error:" + err.Error()
+						}
+						out, err := plain.Finalize(fin, ev)
+						if err != nil {
+							return "finalize-error:" + err.Error()
+						}
+						return fmt.Sprintf("plain-out=%x", out[0])
+					},
 					func() string { return "pub=" + hx(sk.Public().MarshalBinary()) },
 					func() string { return "srvpub=" + hx(srv.PublicKey().MarshalBinary()) },
 					func() string { return "full=" + hx(srv.FullEvaluate(input)) },
@@ -171,7 +207,7 @@ func concKinds() []concKind {
 					},
 				}
 			}
-			return concPlan{ops: mk(), want: wants(mk()), desc: []string{"sk.Public()", "server.PublicKey()", "FullEvaluate", "Evaluate+Finalize"}}
+			return concPlan{ops: mk(), want: wants(mk()), desc: []string{"shared VerifiableClient Blind+Finalize", "shared Client Blind+Finalize", "sk.Public()", "server.PublicKey()", "FullEvaluate", "Evaluate+Finalize"}}
 		}})
 	}
 
